@@ -100,6 +100,13 @@ FIXED = {
     "reinterpret_data_to_fn": "auto z = sandbox_reinterpret_cast<Fn>(e.t_ptr);",
     "free_foreign": "e.sb.free_in_sandbox(e.t2_ptr);", "memcpy_dest_raw": "rlbox::memcpy(e.sb, e.r_ptr, e.t_ptr, 4);",
     "app_ptr_as_callback": "e.v_fn = e.ap;",
+    # callbacks whose signature mixes tainted parameters with a plain one
+    "register_mixed_ptr": "auto c = e.sb.register_callback(cb_mixed_ptr);",
+    "register_mixed_struct": "auto c = e.sb.register_callback(cb_mixed_struct);",
+    "register_mixed_ref": "auto c = e.sb.register_callback(cb_mixed_ref);",
+    "register_mixed_fn": "auto c = e.sb.register_callback(cb_mixed_fn);",
+    "register_mixed_int_last": "auto c = e.sb.register_callback(cb_mixed_int_last);",
+    "register_mixed_first_plain": "auto c = e.sb.register_callback(cb_mixed_first_plain);",
     # function-pointer types that coincide only under the guest ABI
     "vol_assign_callback_abi_equal_long": "e.v_fn = e.cb_l;", "vol_assign_callback_abi_equal_int": "e.v_fnl = e.cb;",
     "vol_assign_callback_abi_equal_ptr": "e.v_fncp = e.cb_ip;", "vol_assign_callback_abi_equal_uint": "e.v_fnu = e.cb_ip;",
